@@ -2,8 +2,10 @@
 import fcntl, hashlib, json, os, re, shutil, subprocess, sys, time
 
 VERIF = os.path.dirname(os.path.dirname(os.path.abspath(__file__)))
-REPO = "/repo"
-BUILD = os.path.join(VERIF, ".build")
+# VERIF_REPO / VERIF_BUILD are used only by self-tests that point the machinery at a scratch copy of
+# the repository; registered checks run with the defaults (/repo, /verif/.build).
+REPO = os.environ.get("VERIF_REPO", "/repo")
+BUILD = os.environ.get("VERIF_BUILD", os.path.join(VERIF, ".build"))
 COQ = os.path.join(VERIF, "coq")
 HOOK_FLAGS = "--cfg resynth_verif"
 NPROC = os.cpu_count() or 4
@@ -31,9 +33,12 @@ class BuildError(Exception):
 
 
 class Lock:
+    """One lock for everything that writes shared build products (cargo targets, .vo files, model binaries)."""
+
     def __init__(self, name="lock"):
         os.makedirs(BUILD, exist_ok=True)
-        self.path = os.path.join(BUILD, name)
+        os.makedirs(os.path.join(VERIF, ".build"), exist_ok=True)
+        self.path = os.path.join(VERIF, ".build", name)
 
     def __enter__(self):
         self.f = open(self.path, "w")
@@ -60,7 +65,12 @@ def write_if_changed(path, text):
 
 RESYNTH = os.path.join(BUILD, "target", "debug", "resynth")
 HARNESS_DIR = os.path.join(BUILD, "htarget", "debug")
-MODEL = os.path.join(BUILD, "model", "rsmodel")
+MODEL_DIR = os.path.join(VERIF, ".build", "model")      # the model does not depend on the repository copy
+MODEL = os.path.join(MODEL_DIR, "rsmodel_run")
+
+
+def model_bin(name):
+    return os.path.join(MODEL_DIR, "rsmodel_" + name)
 
 
 def coq_sources():
@@ -87,10 +97,28 @@ def ensure_coq_makefile():
 def build_rust():
     t = time.time()
     sh(["cargo", "build", "--offline", "--target-dir", os.path.join(BUILD, "target")], cwd=REPO, timeout=1800)
-    hdir = os.path.join(VERIF, "harness")
-    lock = os.path.join(hdir, "Cargo.lock")
-    if not os.path.exists(lock) or open(lock).read() != open(os.path.join(REPO, "Cargo.lock")).read():
-        shutil.copy(os.path.join(REPO, "Cargo.lock"), lock)
+    # the harness crate is instantiated for the repository being checked (path dependencies)
+    hsrc = os.path.join(VERIF, "harness")
+    hdir = os.path.join(BUILD, "harness")
+    os.makedirs(os.path.join(hdir, "src", "bin"), exist_ok=True)
+    os.makedirs(os.path.join(hdir, ".cargo"), exist_ok=True)
+    write_if_changed(os.path.join(hdir, "Cargo.toml"),
+                     open(os.path.join(hsrc, "Cargo.toml.in")).read().replace("@REPO@", REPO))
+    write_if_changed(os.path.join(hdir, ".cargo", "config.toml"), "[net]\noffline = true\n")
+    write_if_changed(os.path.join(hdir, "Cargo.lock"), open(os.path.join(REPO, "Cargo.lock")).read())
+    keep = set()
+    for root, _, files in os.walk(os.path.join(hsrc, "src")):
+        for f in files:
+            if f.endswith(".rs"):
+                rel = os.path.relpath(os.path.join(root, f), hsrc)
+                keep.add(rel)
+                os.makedirs(os.path.dirname(os.path.join(hdir, rel)), exist_ok=True)
+                write_if_changed(os.path.join(hdir, rel), open(os.path.join(root, f)).read())
+    for root, _, files in os.walk(os.path.join(hdir, "src")):
+        for f in files:
+            rel = os.path.relpath(os.path.join(root, f), hdir)
+            if rel not in keep:
+                os.unlink(os.path.join(root, f))
     sh(["cargo", "build", "--offline", "--target-dir", os.path.join(BUILD, "htarget")], cwd=hdir, timeout=1800)
     return time.time() - t
 
@@ -120,22 +148,35 @@ def build_coq(targets=None, timeout=3000):
     return rc, out, time.time() - t
 
 
-def build_model():
-    """Extraction + ocamlopt when any compiled theory is newer than the model binary."""
-    newest = 0
-    for root, _, files in os.walk(COQ):
+def build_model(names=None):
+    """Extraction + ocamlopt of coq/extract/<name>/ when a compiled theory or a driver source is newer
+    than the binary rsmodel_<name>."""
+    newest_vo = 0
+    for root, _, files in os.walk(os.path.join(COQ, "theories")):
         for f in files:
-            if f.endswith(".vo") or (f.endswith(".ml") and "driver" in root) or f == "Extract.v":
-                newest = max(newest, os.path.getmtime(os.path.join(root, f)))
-    if os.path.exists(MODEL) and os.path.getmtime(MODEL) >= newest:
-        return
-    sh([os.path.join(COQ, "extract", "build.sh"), os.path.join(BUILD, "model")], timeout=1200)
+            if f.endswith(".vo"):
+                newest_vo = max(newest_vo, os.path.getmtime(os.path.join(root, f)))
+    for f in os.listdir(os.path.join(COQ, "gen")):
+        if f.endswith(".vo"):
+            newest_vo = max(newest_vo, os.path.getmtime(os.path.join(COQ, "gen", f)))
+    xdir = os.path.join(COQ, "extract")
+    for name in sorted(os.listdir(xdir)):
+        d = os.path.join(xdir, name)
+        if not os.path.isfile(os.path.join(d, "Extract.v")) or (names and name not in names):
+            continue
+        newest = max([newest_vo, os.path.getmtime(os.path.join(xdir, "common.ml")),
+                      os.path.getmtime(os.path.join(xdir, "build.sh"))]
+                     + [os.path.getmtime(os.path.join(d, f)) for f in os.listdir(d) if f.endswith((".ml", ".v"))])
+        b = model_bin(name)
+        if os.path.exists(b) and os.path.getmtime(b) >= newest:
+            continue
+        sh([os.path.join(xdir, "build.sh"), name, MODEL_DIR], timeout=1200)
 
 
 MODEL_VOS = ["theories/Interp/Run.vo"]
 
 
-def build_everything(extra_vo=()):
+def build_everything(extra_vo=(), models=("run",)):
     """Rebuild from /repo's working tree.  Returns (ok, message)."""
     with Lock():
         build_rust()
@@ -143,7 +184,7 @@ def build_everything(extra_vo=()):
         rc, out, _ = build_coq(MODEL_VOS + list(extra_vo))
         if rc != 0:
             return False, out[-6000:]
-        build_model()
+        build_model(list(models))
     return True, ""
 
 
